@@ -6,8 +6,11 @@ iovecs, `take`, `clone`, detached arenas (swap / take / flush / `read_n`), detac
 faithful FIFO byte pipe.
 
 Property theorems only; the development is `Proofs/IovecWAbs.lean` (definitions), `IovecWFrame.lean`,
-`IovecWStep.lean`, `IovecWRun.lean`, `IovecWLedger.lean`.  It REUSES the single-iovec development of
-`Props/C03.lean` (`IovInv`, `abs`, `step_refines`, `Pushed`, the anchored-push lemmas of track `anch`).
+`IovecWStep.lean`, `IovecWRun.lean`, `IovecWLedger.lean`, `IovecWPriv.lean`.  It REUSES the single-iovec
+development of `Props/C03.lean`: every definition (`abs`, `absCells`, `Op`, `step`, `specStep`, `specOk`, the
+ledger) is the original one; the lemmas (`step_refines`, `Pushed`, the anchored-push lemmas of track `anch`)
+are the originals re-proved for the weaker invariant `W.IovInv` (`Proofs/IovecXInv.lean`, `IovecXAbs.lean`,
+`IovecXAnch.lean`; see below).
 
 Vocabulary of the statements:
 
@@ -56,7 +59,7 @@ open Woodpile.Pipe (Cell Pipe)
 theorem ghost_run_is_world_run (ops : List WOp) (g : GW) : (g.run ops).map (·.1.w) = g.w.run ops :=
   GW.run_world ops g
 
-/-- Per-operation refinement, ALL handles at once: a step that does not panic keeps `IovInv` for every live
+/-- Per-operation refinement, ALL handles at once: a step that does not panic keeps `W.IovInv` for every live
 iovec, keeps every live handle's abstraction equal to the reference pipe — the named handle by the
 corresponding pipe operation, a created handle by move / copy / fresh pipe, every other handle by the
 identity —, keeps the handle count and the token table in step, and its returned value satisfies the
